@@ -20,9 +20,8 @@ def attDefsFor (dt : Option Doctype) (e : QN) : List AttDef :=
     finding `required-default`). -/
 def elemAttrs (reqQuirk : Bool) (dt : Option Doctype) (e : QN) (attrs : List Attr) : List (Attr × Bool) :=
   let written := attrs.map (·, true)
-  let plain := attrs.filter (fun a => !xmlnsQ a.name)
   let defaults := (attDefsFor dt e).filterMap fun d =>
-    if plain.any (·.name == d.name) then none else
+    if attrs.any (·.name == d.name) then none else
     match d.dflt with
     | .value _ vs => some (⟨d.name, vs⟩, false)
     | .required => if reqQuirk then some (⟨d.name, []⟩, false) else none
